@@ -7,7 +7,9 @@ import numpy
 
 from . import matrix_common as mc
 
-FORMULAS = ["center(a)", "scale(a) + A", "a:A + b", "poly(a, 2) + B", "b + C(A, contr.sum):center(a)", "a + z", "center(a):A + z"]
+FORMULAS = ["center(a)", "scale(a) + A", "a:A + b", "poly(a, 2) + B", "b + C(A, contr.sum):center(a)", "a + z", "center(a):A + z",
+            # a back-tick quoted column used by several Python factors of one build (its sanitised alias is per evaluation)
+            "center(`x 1`) + scale(`x 1`)", "`x 1` + scale(`x 1`):A + {`x 1` * b}"]
 Z_NULLS_D2 = [1, 3]  # data set 2 carries NaN in the concrete column z at these rows; data set 1 is complete
 OPS = ["M1", "M2", "S1", "S2", "U1", "U2", "F1", "F2"]
 OPS3 = ["M3", "U3", "F3"]  # data set 3: the kinds of a and A are swapped (a categorical, A numeric)
@@ -98,6 +100,11 @@ def run_history(formula, history, data, same, make_ctx):
             want_rows = len(df)
         if cg.shape[0] != want_rows:
             problems.append(("history-changes-rows", f"{where}: {cg.shape[0]} rows returned, the data has {want_rows} complete rows"))
+        # determinism of what is RECORDED: the same call on fresh objects records state under the same keys
+        kg = (sorted(map(str, got.model_spec.transform_state)), sorted(map(str, got.model_spec.encoder_state)))
+        kr = (sorted(map(str, ref.model_spec.transform_state)), sorted(map(str, ref.model_spec.encoder_state)))
+        if kg != kr:
+            problems.append(("recorded-state-keys-differ", f"{where}: state recorded under {kg}, the same call made first on fresh objects records {kr}"))
         if lg != lr or cg.shape != cr.shape:
             problems.append(("history-changes-columns", f"{where}: columns {lg} vs {lr} when made first on fresh objects"))
         else:
